@@ -476,9 +476,10 @@ def direct_oracles(ctx, n_pairs):
                               "got": repr(du.standardize_resolution((q, unit)))})
         for neg in (False, True):
             sgn = -1 if neg else 1
-            if du.resolution_delta(pe, (q, "month"), neg) != du.add_months(pe, sgn * q) or \
-               du.resolution_delta(pe, (q, "day"), neg) != pe + datetime.timedelta(days=sgn * q):
-                fails.append({"law": "resolution_delta", "date": str(pe), "q": q, "negative": neg})
+            for qq in (q, -q):        # negative quantities too: the flag flips whatever sign the quantity has
+                if du.resolution_delta(pe, (qq, "month"), neg) != du.add_months(pe, sgn * qq) or \
+                   du.resolution_delta(pe, (qq, "day"), neg) != pe + datetime.timedelta(days=sgn * qq):
+                    fails.append({"law": "resolution_delta", "date": str(pe), "q": qq, "negative": neg})
     # refusals both ways: unknown units are refused, the documented ones are not; zero shifts are the identity
     some = datetime.date(2021, 2, 28)
     for bad_unit in ("year", "quarter", "week", "", "hours", "Months "[:0] + "mths"):
